@@ -14,6 +14,8 @@ BOOL_CALLS = {
     "std::cmp::PartialEq::ne": ("eq", True),
 }
 
+ORD_CALLS = {"std::cmp::PartialOrd::gt": "Gt", "std::cmp::PartialOrd::lt": "Lt", "std::cmp::PartialOrd::ge": "Ge", "std::cmp::PartialOrd::le": "Le"}
+
 
 class Cond:
     """A boolean test: kind in {'cmp','call','discr','other'}; `neg` tells whether the recorded
@@ -65,6 +67,12 @@ class Cond:
                 return self._analyse(rv["a"], not neg, depth + 1)
         if o[0] == "call":
             nm = callee_name(o[2])
+            if nm in ORD_CALLS and len(o[2]["ops"]) == 2:
+                self.kind = "cmp"
+                self.op = NEG[ORD_CALLS[nm]] if neg else ORD_CALLS[nm]
+                self.a, self.b = o[2]["ops"]
+                self.via_call = callee_resolved(o[2])
+                return
             if nm in BOOL_CALLS:
                 name, n2 = BOOL_CALLS[nm]
                 self.kind = "call"
